@@ -1064,3 +1064,118 @@ def reenc_sshsig_cases(kalg):
                     yield name, r is True, None
                 except Exception as exc:    # pylint: disable=broad-except
                     yield name, False, exc
+
+
+# --------------------------------------------------------------------------
+# cross-algorithm table: every key x every registered algorithm name
+# --------------------------------------------------------------------------
+
+XKEY_ALG = {'rsa': 'ssh-rsa', 'ecdsa256': 'ecdsa-sha2-nistp256',
+            'ecdsa384': 'ecdsa-sha2-nistp384',
+            'ecdsa521': 'ecdsa-sha2-nistp521', 'ed25519': 'ssh-ed25519',
+            'ed448': 'ssh-ed448', 'dss': 'ssh-dss'}
+XORDER = ['rsa', 'ecdsa256', 'ecdsa384', 'ecdsa521', 'ed25519', 'ed448',
+          'dss']
+
+
+class CrossWorld:
+    """Fresh keys, constructed (and used once) in a given order; remembers
+    which algorithm names each key object accepted when it was born."""
+
+    def __init__(self, kinds):
+        self.keys = {}
+        self.born = {}
+        self.cache = {}
+        for kind in kinds:
+            try:
+                k = asyncssh.generate_private_key(XKEY_ALG[kind])
+                sub = asyncssh.generate_private_key(XKEY_ALG[kind])
+            except (asyncssh.KeyGenerationError, ValueError):
+                continue
+            self.born[kind] = set(k.all_sig_algorithms)
+            alg = k.sig_algorithms[0]
+            assert k.convert_to_public().verify(b'use', k.sign(b'use', alg))
+            self.keys[kind] = (k, sub)
+
+    def names_now(self, kind):
+        k = self.keys[kind][0]
+        return set(k.all_sig_algorithms), \
+            set(k.convert_to_public().all_sig_algorithms)
+
+    def run(self, row):
+        """-> accepted (bool) or None if the row cannot be materialised"""
+        if row['key'] not in self.keys:
+            return None
+        k, sub = self.keys[row['key']]
+        sigalg = row['sigalg'].encode()
+        name = row['name'].encode()
+        path = row['path']
+        ck = (row['key'], row['sigalg'], path)
+        try:
+            if path == 'verify':
+                data = b'cross ' + sigalg * 9
+                if ck not in self.cache:
+                    self.cache[ck] = k.sign(data, sigalg)
+                _, rest = split_sig(self.cache[ck])
+                return bool(k.convert_to_public().verify(data,
+                                                         S(name) + rest))
+            if path == 'cert':
+                if ck not in self.cache:
+                    self.cache[ck] = cert_fields(
+                        k, sigalg, sub, 1, ['p'], 0, 2 ** 64 - 1, b'',
+                        S('permit-pty') + S(b''))
+                fields = self.cache[ck]
+                body = b''.join(f for _, f in fields[:-1])
+                _, rest = split_sig(fields[-1][1][4:])
+                cert, _ = import_cert_blob(body + S(S(name) + rest),
+                                           cert_alg(sub))
+                return cert is not None
+            if path == 'sshsig':
+                if row['key'] == 'rsa' and row['sigalg'] != 'rsa-sha2-512':
+                    return None         # create_sshsig always uses sha512
+                if ck not in self.cache:
+                    raw = asyncssh.create_sshsig(k, MSG, namespace=NS,
+                                                 raw=True)
+                    off = 10
+                    for _ in range(4):
+                        n = struct.unpack('>I', raw[off:off + 4])[0]
+                        off += 4 + n
+                    n = struct.unpack('>I', raw[off:off + 4])[0]
+                    self.cache[ck] = (raw[:off], raw[off + 4:off + 4 + n])
+                head, sig = self.cache[ck]
+                _, rest = split_sig(sig)
+                text = ('* ' + k.export_public_key('openssh').decode()) \
+                    .encode()
+                return asyncssh.validate_sshsig(
+                    MSG, head + S(S(name) + rest), PRINCIPAL, text) is True
+        except Exception:               # pylint: disable=broad-except
+            return False
+        raise ValueError(path)
+
+
+def cross_isolated(kind, rows):
+    """Evaluate rows for one key type in a fresh interpreter in which no key
+    of another type is ever constructed.  -> (results, born names)"""
+    import json
+    import sys
+    p = subprocess.Popen([sys.executable, '-m', 'harness.drivers.sig_cert',
+                          '--cross-isolated'], stdin=subprocess.PIPE,
+                         stdout=subprocess.PIPE, stderr=subprocess.PIPE)
+    return p, json.dumps({'kind': kind, 'rows': rows}).encode()
+
+
+def _cross_isolated_main():
+    import json
+    import sys
+    req = json.loads(sys.stdin.buffer.read())
+    w = CrossWorld([req['kind']])
+    out = [w.run(r) for r in req['rows']]
+    names = sorted(n.decode() for n in w.names_now(req['kind'])[1]) \
+        if req['kind'] in w.keys else None
+    sys.stdout.write(json.dumps({'results': out, 'names': names}))
+
+
+if __name__ == '__main__':
+    import sys as _sys
+    if '--cross-isolated' in _sys.argv:
+        _cross_isolated_main()
